@@ -78,13 +78,18 @@ def main():
             'level_claimed': {'category': c['cat'], 'text': c['text'],
                               'design_ref': c['ref']},
             'level_note': c['note'],
-            'technique': c['technique'],
+            'technique': c['technique'] + (
+                '; plus a coverage-guided fuzzing campaign (atheris) over '
+                'the same generator and oracle' if pid != 'C15' else ''),
         })
     m = {
         'version': 1,
         'setup_cmd': f'{PY} -c "import hypothesis" 2>/dev/null || '
                      '/venv/bin/pip install --no-index --find-links '
-                     f'/opt/veriftools/wheels hypothesis; {PY} -m compileall '
+                     f'/opt/veriftools/wheels hypothesis; '
+                     f'{PY} -c "import atheris" 2>/dev/null || '
+                     '/venv/bin/pip install --no-index --find-links '
+                     f'/opt/veriftools/wheels atheris; {PY} -m compileall '
                      '-q vt',
         'hooks': {
             'guard': 'S3TRANSFER_VERIF',
@@ -103,7 +108,9 @@ def main():
             'kind_free_text': 'Hypothesis-driven property-based testing with '
                               'a deterministic scheduler, fake S3 service and '
                               'in-memory file system; exhaustive enumeration '
-                              'on finite sub-domains',
+                              'on finite sub-domains; coverage-guided '
+                              'campaigns (atheris/libFuzzer) over the same '
+                              'strategies and oracles',
         }],
         'checks': checks,
         'not_applicable': na,
